@@ -9,6 +9,7 @@ import (
 	leanhelix "github.com/orbs-network/lean-helix-go"
 	"github.com/orbs-network/lean-helix-go/services/interfaces"
 	"github.com/orbs-network/lean-helix-go/services/logger"
+	"github.com/orbs-network/lean-helix-go/services/storage"
 	"github.com/orbs-network/lean-helix-go/spec/types/go/primitives"
 	"github.com/orbs-network/lean-helix-go/state"
 )
@@ -27,6 +28,10 @@ type RealNode struct {
 	KM     *FakeKeyManager
 
 	outs []string // effects of the current event, in order
+	Stored []string // successful Storage.Store* calls of the current event
+	Approved map[uint64]bool // blocks this node's consumer validated
+	Proposed map[uint64]bool // blocks this node's consumer proposed
+	Store *recStorage
 	spi  []string // SPI answers of the current event, in order
 
 	// scenario knobs
@@ -77,6 +82,7 @@ func (u *recBlockUtils) RequestNewBlockProposal(ctx context.Context, blockHeight
 	n.nextBlock++
 	b := &FakeBlock{H: uint64(blockHeight), Id: uint64(n.Idx+1)*1000000 + n.nextBlock}
 	n.spi = append(n.spi, fmt.Sprintf("prop(%s;%s)", n.enc.block(b), b01(did)))
+	n.Proposed[b.Id] = true
 	return b, blockHash(b)
 }
 
@@ -93,6 +99,9 @@ func (u *recBlockUtils) ValidateBlockProposal(ctx context.Context, blockHeight p
 		}
 	}
 	n.spi = append(n.spi, fmt.Sprintf("verd(%s;%s)", b01(ok), b01(did)))
+	if ok {
+		n.Approved[fb.Id] = true
+	}
 	if !ok {
 		return errors.New("consumer rejects the proposal")
 	}
@@ -105,6 +114,41 @@ func (u *recBlockUtils) ValidateBlockCommitment(blockHeight primitives.BlockHeig
 		return false
 	}
 	return string(blockHash(fb)) == string(blockHash_)
+}
+
+// recStorage wraps the real InMemoryStorage (injected through Config.Storage) and notes successful stores.
+type recStorage struct {
+	*storage.InMemoryStorage
+	n *RealNode
+}
+
+func (s *recStorage) StorePreprepare(m *interfaces.PreprepareMessage) bool {
+	ok := s.InMemoryStorage.StorePreprepare(m)
+	if ok {
+		s.n.Stored = append(s.n.Stored, "pp")
+	}
+	return ok
+}
+func (s *recStorage) StorePrepare(m *interfaces.PrepareMessage) bool {
+	ok := s.InMemoryStorage.StorePrepare(m)
+	if ok {
+		s.n.Stored = append(s.n.Stored, "p")
+	}
+	return ok
+}
+func (s *recStorage) StoreCommit(m *interfaces.CommitMessage) bool {
+	ok := s.InMemoryStorage.StoreCommit(m)
+	if ok {
+		s.n.Stored = append(s.n.Stored, "c")
+	}
+	return ok
+}
+func (s *recStorage) StoreViewChange(m *interfaces.ViewChangeMessage) bool {
+	ok := s.InMemoryStorage.StoreViewChange(m)
+	if ok {
+		s.n.Stored = append(s.n.Stored, "vc")
+	}
+	return ok
 }
 
 type recMembership struct{ n *RealNode }
@@ -152,7 +196,8 @@ func (e *recElection) Stop() {
 }
 
 func NewRealNode(w *World, idx int, id []byte, prevProof []byte) *RealNode {
-	n := &RealNode{Idx: idx, Id: id, W: w, PrevProof: prevProof}
+	n := &RealNode{Idx: idx, Id: id, W: w, PrevProof: prevProof, Approved: map[uint64]bool{}, Proposed: map[uint64]bool{}}
+	n.Store = &recStorage{storage.NewInMemoryStorage(), n}
 	n.KM = &FakeKeyManager{w: w, me: id}
 	n.enc = &encoder{km: n.KM}
 	n.BU = &recBlockUtils{n}
@@ -164,6 +209,7 @@ func NewRealNode(w *World, idx int, id []byte, prevProof []byte) *RealNode {
 		BlockUtils:              n.BU,
 		KeyManager:              n.KM,
 		OverrideElectionTrigger: n.El,
+		Storage:                 n.Store,
 	}
 	n.St = state.NewState()
 	onCommit := func(ctx context.Context, block interfaces.Block, blockProof []byte) error {
@@ -195,7 +241,7 @@ func NewRealNode(w *World, idx int, id []byte, prevProof []byte) *RealNode {
 // run executes one event on the real node, catching panics, and returns the op-line suffix (SPI
 // answers) and the observed output line.
 func (n *RealNode) run(f func()) (spi string, out string) {
-	n.outs, n.spi, n.newSent = nil, nil, nil
+	n.outs, n.spi, n.newSent, n.Stored = nil, nil, nil, nil
 	func() {
 		defer func() {
 			if r := recover(); r != nil {
